@@ -85,6 +85,7 @@ func main() {
 		fmt.Printf("VIOLATION property=%s replay=%s\n", *prop, "load-failure")
 		os.Exit(1)
 	}
+	verifDirFlag = *verif
 	c := newCtx(P, *prop, *tier)
 	c.Only = *only
 	if err := c.loadKnown(*verif + "/known_findings.json"); err != nil {
